@@ -210,14 +210,19 @@ void oracleView(Sink &k, const DensityLegalizer &h, const Ground &gr, const std:
     if (demand[c] == 0 && cnt[c] != 0) F("zero-demand cell " + std::to_string(c) + " is in " + std::to_string(cnt[c]) + " bins");
     if (cnt[c] == 1 && (h.cellBinX(c) != bx[c] || h.cellBinY(c) != by[c])) F("cellBinX/Y of cell " + std::to_string(c) + " disagree with binCells");
   }
-  // reported coordinates inside the bin
+  // reported coordinates inside the bin.  On an axis where the whole placement area has zero extent
+  // (min == max; only reachable through DensityGrid(binSize, regions) with degenerate rectangles, never
+  // through fromIspdCircuit) the binary32 convex combination dem*max + (1-dem)*min may be one ulp off
+  // max == min; that axis is outside the statement's domain and is skipped (counted).
+  bool degX = gr.area.minX >= gr.area.maxX, degY = gr.area.minY >= gr.area.maxY;
+  if (degX || degY) k.count("coords_axis_skipped_zero_extent_area");
   std::vector<float> sx = h.spreadCoordX(tx), sy = h.spreadCoordY(ty);
   std::vector<float> px = h.simpleCoordX(), py = h.simpleCoordY();
   for (int c = 0; c < n; ++c) {
     if (cnt[c] != 1) continue;
     float x0 = h.binLimitX(bx[c]), x1 = h.binLimitX(bx[c] + 1), y0 = h.binLimitY(by[c]), y1 = h.binLimitY(by[c] + 1);
-    if (!(sx[c] >= x0 && sx[c] <= x1)) F("spreadCoordX of cell " + std::to_string(c) + " outside its bin");
-    if (!(sy[c] >= y0 && sy[c] <= y1)) F("spreadCoordY of cell " + std::to_string(c) + " outside its bin");
+    if (!degX && !(sx[c] >= x0 && sx[c] <= x1)) F("spreadCoordX of cell " + std::to_string(c) + " outside its bin");
+    if (!degY && !(sy[c] >= y0 && sy[c] <= y1)) F("spreadCoordY of cell " + std::to_string(c) + " outside its bin");
     if (!(px[c] >= x0 && px[c] <= x1)) F("simpleCoordX of cell " + std::to_string(c) + " outside its bin");
     if (!(py[c] >= y0 && py[c] <= y1)) F("simpleCoordY of cell " + std::to_string(c) + " outside its bin");
   }
